@@ -69,7 +69,7 @@ def judge(plan, outcome):
     m = outcome["measure"]
     env = {"route": plan["route"], "k": plan["k"], "build": plan["build"]}
     # (1) the profile sample fed back to itself reads 2.0 wherever the profile has depth
-    for route in ("bam", "yml", "own", "second_region", "reused_profile"):
+    for route in ("bam", "yml", "own", "second_region", "short_region", "reused_profile"):
         r = m["self"][route]
         if r.get("exc"):
             vs.append(_v("profile sample could not be normalised against its own profile", exc=r["exc"],
@@ -304,6 +304,10 @@ def run_segment(seg):
     mid = (c0 + c1) // 2
     sub = W.neutral_arg(world, build, sub=[c0 + 3, mid])
     res["self"]["second_region"] = _measure(gene, refbam, sub, selfbam)
+    # ... and one that is shorter than a read (every read that touches it spans it or sticks out of it)
+    L_ = world["reads"]["L"]
+    short = W.neutral_arg(world, build, sub=[mid, mid + max(8, L_ // 3)])
+    res["self"]["short_region"] = _measure(gene, refbam, short, selfbam)
     prof, cnr = (refbam, man["neutral"]) if plan["route"] == "bam" else (yml, None)
     res["base"] = _measure(gene, prof, cnr, s0, structure=True)
     k = plan["k"]
